@@ -5,7 +5,7 @@
    number of times a sub-expression runs are observable. *)
 From Coq Require Import List Arith Bool ZArith.
 Import ListNotations.
-Open Scope Z_scope.
+Local Open Scope Z_scope.
 
 (* ---------- stores: concrete data, so that equality of outcomes is plain Leibniz equality ---------- *)
 Fixpoint upd {A} (d : A) (l : list A) (x : nat) (v : A) : list A :=
